@@ -646,3 +646,83 @@ Proof.
 Qed.
 
 End Key.
+
+(* ------------------------------------------------------------------------------------ *)
+(* the fixed-width key encoding (FromECDSAPub) *)
+
+Lemma pad_be_length w n : length (pad_be w n) = w.
+Proof. unfold pad_be. rewrite app_length, repeat_length, skipn_length. lia. Qed.
+
+Lemma pad_be_ok w n : bytes_ok (pad_be w n).
+Proof.
+  unfold pad_be. apply Forall_app. split.
+  - apply Forall_forall. intros x Hx. apply repeat_spec in Hx. subst. unfold byte_ok. lia.
+  - apply Forall_skipn. apply be_bytes_ok.
+Qed.
+
+Lemma marshal_pubkey_length x y : length (marshal_pubkey x y) = key_len.
+Proof. unfold marshal_pubkey. cbn [length]. rewrite app_length, !pad_be_length. reflexivity. Qed.
+
+Lemma marshal_pubkey_ok x y : bytes_ok (marshal_pubkey x y).
+Proof.
+  unfold marshal_pubkey. constructor; [unfold byte_ok; lia|]. apply Forall_app.
+  split; apply pad_be_ok.
+Qed.
+
+Lemma be_bytes_fuel_length f : forall n k acc, n < 256 ^ N.of_nat k ->
+  (length (be_bytes_fuel f n acc) <= k + length acc)%nat.
+Proof.
+  induction f as [|f IH]; intros n k acc Hn; cbn [be_bytes_fuel]; [lia|].
+  destruct (N.eqb_spec n 0) as [->|Hz]; [lia|].
+  destruct k as [|k]; [simpl in Hn; lia|].
+  rewrite Nat2N.inj_succ, N.pow_succ_r' in Hn.
+  assert (Hd : n / 256 < 256 ^ N.of_nat k) by (apply N.div_lt_upper_bound; lia).
+  specialize (IH (n / 256) k (n mod 256 :: acc) Hd). simpl length in IH. lia.
+Qed.
+
+Lemma be_bytes_length n k : n < 256 ^ N.of_nat k -> (length (be_bytes n) <= k)%nat.
+Proof.
+  intros H. unfold be_bytes. pose proof (be_bytes_fuel_length (N.size_nat n) n k [] H) as L.
+  simpl in L. lia.
+Qed.
+
+Lemma of_be_zeros k b : of_be_bytes (repeat 0 k ++ b) = of_be_bytes b.
+Proof.
+  unfold of_be_bytes. induction k as [|k IH]; [reflexivity|]. cbn [repeat app fold_left]. exact IH.
+Qed.
+
+(* a coordinate below 256^w is recovered from its padded form *)
+Lemma of_be_pad_be w n : n < 256 ^ N.of_nat w -> of_be_bytes (pad_be w n) = n.
+Proof.
+  intros H. unfold pad_be. pose proof (be_bytes_length n w H) as L.
+  replace (length (be_bytes n) - w)%nat with 0%nat by lia. cbn [skipn].
+  rewrite of_be_zeros. apply bigint_roundtrip.
+Qed.
+
+Lemma marshal_pubkey_coords x y :
+  x < 256 ^ 32 -> y < 256 ^ 32 ->
+  of_be_bytes (firstn 32 (skipn 1 (marshal_pubkey x y))) = x /\
+  of_be_bytes (skipn 33 (marshal_pubkey x y)) = y.
+Proof.
+  intros Hx Hy. unfold marshal_pubkey, coord_len.
+  pose proof (pad_be_length 32 x) as Lx.
+  change (skipn 1 (4 :: pad_be 32 x ++ pad_be 32 y)) with (pad_be 32 x ++ pad_be 32 y).
+  change (skipn 33 (4 :: pad_be 32 x ++ pad_be 32 y)) with (skipn 32 (pad_be 32 x ++ pad_be 32 y)).
+  split.
+  - rewrite firstn_app, Lx, Nat.sub_diag, firstn_O, app_nil_r.
+    rewrite firstn_all2 by lia. apply of_be_pad_be. exact Hx.
+  - rewrite skipn_app, Lx, Nat.sub_diag, skipn_O. rewrite skipn_all2 by lia. cbn [app].
+    apply of_be_pad_be. exact Hy.
+Qed.
+
+Lemma b64_encode_length b : length (b64_encode b) = ((4 * length b + 2) / 3)%nat.
+Proof.
+  induction b as [| x | x y | x y z r IH] using list_ind3; try reflexivity.
+  cbn [b64_encode length]. rewrite IH.
+  replace (4 * S (S (S (length r))) + 2)%nat with ((4 * length r + 2) + 4 * 3)%nat by lia.
+  rewrite Nat.div_add by lia. lia.
+Qed.
+
+(* the check-in key attribute: 87 characters spelling exactly 65 bytes *)
+Lemma marshal_pubkey_text_length x y : length (b64_encode (marshal_pubkey x y)) = 87%nat.
+Proof. rewrite b64_encode_length, marshal_pubkey_length. reflexivity. Qed.
